@@ -53,6 +53,30 @@ CHECKS['C02'] = (
     'trusts the generator; reads the node\'s own content list through one adapter (oracles.body_of)',
     '3/C02')
 
+CHECKS['C03'] = (
+    'grammar-based generation + search oracle computed from the generating syntax tree',
+    'for generated documents (names drawn from small pools so that they repeat across containers) every occurring name, '
+    'absent names, name lists and full-expression queries are searched from the document and from a spread of inner '
+    'nodes; expected result sets (source offsets) come from the syntax tree, never from TexSoup; find/count/attribute '
+    'access are checked against find_all. Exploration.',
+    'result order is not judged; internal names of unnamed regions are not queried',
+    '3/C03')
+CHECKS['C04'] = (
+    'grammar-based generation + relational invariants between navigation views at every node',
+    'for every node of every generated document (whitespace-rich profiles) the relations between expr.all, contents, '
+    'children, iteration/indexing, descendants (closure, no duplicates), text (order, offsets) and parent links are '
+    'checked by object identity. Exploration.',
+    'fresh parses; up to 60 nodes per document',
+    '3/C04')
+CHECKS['C13'] = (
+    'grammar-based generation + exhaustive {a,LF} strings, reference offset/line/column/regex oracles',
+    'positions of all nodes/arguments/text tokens are compared with source slices; char_pos_to_line is compared with a '
+    'count/rfind reference at every offset of every document and of all strings over {a,LF} up to length 11 (14 '
+    'thorough, exhaustive); search_regex is compared with re.finditer over the text leaves for 11 regexes. Exploration '
+    '(exhaustive for the line map within the bound).',
+    'fresh parses only; LF line structure',
+    '3/C13')
+
 PENDING = {}
 
 
